@@ -391,3 +391,112 @@ Definition get_slice_as_array (merged : bool) (a : earray) (first last : Z) : re
     else
       if (first <? 0) || (last <? first) || (len (adata a) <? first) || (len (adata a) <? last) then Ok None
       else get_slice a first last.
+
+(* ------------------------------------------------------------------ compiler/defer.go *)
+(* findDeferCallArgsStart / findDeferCallEnd / hoistDeferCallArguments guard / hoistDeferReceiver on the
+   token kinds that those scans distinguish.  start = c.t.Mark(). *)
+Inductive tk := TIdent | TDot | TLParen | TRParen | TOtherTok.
+
+Fixpoint scan_chain (toks : list tk) (pos : Z) (fuel : nat) : res Z :=
+  match fuel with
+  | O => Ok pos
+  | S f => if len toks <=? pos then Ok pos else
+           do t <- idx toks pos;
+           match t with TIdent | TDot => scan_chain toks (pos + 1) f | _ => Ok pos end
+  end.
+Definition find_args_start (toks : list tk) (start : Z) : res Z := scan_chain toks start (S (length toks)).
+
+Fixpoint scan_parens (toks : list tk) (pos depth : Z) (fuel : nat) : res Z :=
+  match fuel with
+  | O => Ok pos
+  | S f => if len toks <=? pos then Ok pos else
+           do t <- idx toks pos;
+           match t with
+           | TLParen => scan_parens toks (pos + 1) (depth + 1) f
+           | TRParen => if depth - 1 =? 0 then Ok (pos + 1) else scan_parens toks (pos + 1) (depth - 1) f
+           | _ => scan_parens toks (pos + 1) depth f
+           end
+  end.
+Definition find_call_end (toks : list tk) (start : Z) : res Z :=
+  do a <- find_args_start toks start; scan_parens toks a 0 (S (length toks)).
+
+Fixpoint last_dot (toks : list tk) (i stop : Z) (acc : Z) (fuel : nat) : res Z :=
+  match fuel with
+  | O => Ok acc
+  | S f => if stop <=? i then Ok acc else
+           do t <- idx toks i;
+           last_dot toks (i + 1) stop (match t with TDot => i | _ => acc end) f
+  end.
+
+(* the shared guard:  if argsStart >= len(Tokens) || Tokens[argsStart].IsNot("(") { return }
+   guarded = false drops the first half (indexing one past the end when the chain reaches the end) *)
+Definition has_call_args (guarded : bool) (toks : list tk) (a : Z) : res bool :=
+  if guarded && (len toks <=? a) then Ok false else
+  do t <- idx toks a; Ok (match t with TLParen => true | _ => false end).
+
+(* hoistDeferReceiver up to the token surgery: None = nothing to hoist (position restored),
+   Some (lastDot, methodChainEnd) = the suffix Tokens[lastDot:methodChainEnd] is copied and deleted *)
+Definition hoist_receiver (guarded : bool) (toks : list tk) (start : Z) : res (option (Z * Z)) :=
+  do a <- find_args_start toks start;
+  do call <- has_call_args guarded toks a;
+  if negb call then Ok None else
+  do ld <- last_dot toks start a (-1) (S (length toks));
+  if ld <? 0 then Ok None else
+  do e <- find_call_end toks start;
+  do _ <- mk (e - ld);
+  do _ <- slice toks ld e;
+  Ok (Some (ld, e)).
+
+(* ------------------------------------------------------------------ callNative.go: mutex bookkeeping *)
+(* A Go sync.RWMutex used from ONE goroutine: (w, r).  Unlock of an unlocked mutex and RUnlock without a
+   reader are Go FATAL errors (not panics: no recover stops them); Lock/RLock that cannot proceed block. *)
+Inductive mop := MLock | MUnlock | MRLock | MRUnlock | MTryLock | MTryRLock.
+Inductive mout := MDone | MNotLocked | MBool (b : bool) | MBlock | MFatal.
+Record rwm := { rw_w : bool; rw_r : Z;          (* the real mutex *)
+                bk_w : bool; bk_r : Z }.        (* rwMutexState: writeLocked, readers *)
+Definition rwm0 : rwm := {| rw_w := false; rw_r := 0; bk_w := false; bk_r := 0 |}.
+
+(* callRWMutexMethod; pre = true: TryRLock counts the reader BEFORE trying and never takes it back *)
+Definition rw_step (pre : bool) (s : rwm) (o : mop) : rwm * mout :=
+  match o with
+  | MLock => if rw_w s || (0 <? rw_r s) then (s, MBlock)
+             else ({| rw_w := true; rw_r := rw_r s; bk_w := true; bk_r := bk_r s |}, MDone)
+  | MUnlock => if bk_w s then
+                 if rw_w s then ({| rw_w := false; rw_r := rw_r s; bk_w := false; bk_r := bk_r s |}, MDone)
+                 else ({| rw_w := rw_w s; rw_r := rw_r s; bk_w := false; bk_r := bk_r s |}, MFatal)
+               else (s, MNotLocked)
+  | MRLock => if rw_w s then (s, MBlock)
+              else ({| rw_w := rw_w s; rw_r := rw_r s + 1; bk_w := bk_w s; bk_r := bk_r s + 1 |}, MDone)
+  | MRUnlock => if bk_r s <=? 0 then (s, MNotLocked)
+                else if rw_r s <=? 0 then ({| rw_w := rw_w s; rw_r := rw_r s; bk_w := bk_w s; bk_r := bk_r s - 1 |}, MFatal)
+                else ({| rw_w := rw_w s; rw_r := rw_r s - 1; bk_w := bk_w s; bk_r := bk_r s - 1 |}, MDone)
+  | MTryLock => if rw_w s || (0 <? rw_r s) then (s, MBool false)
+                else ({| rw_w := true; rw_r := rw_r s; bk_w := true; bk_r := bk_r s |}, MBool true)
+  | MTryRLock => let ok := negb (rw_w s) in
+                 ({| rw_w := rw_w s; rw_r := if ok then rw_r s + 1 else rw_r s; bk_w := bk_w s;
+                     bk_r := if pre || ok then bk_r s + 1 else bk_r s |}, MBool ok)
+  end.
+
+(* run until the goroutine blocks or the process dies; the list of outcomes *)
+Fixpoint rw_run (pre : bool) (s : rwm) (ops : list mop) : list mout :=
+  match ops with
+  | [] => []
+  | o :: r => let '(s', out) := rw_step pre s o in
+              match out with MBlock | MFatal => [out] | _ => out :: rw_run pre s' r end
+  end.
+
+(* callMutexMethod on a sync.Mutex: real w, bookkeeping bw *)
+Definition mx_step (s : bool * bool) (o : mop) : (bool * bool) * mout :=
+  let '(w, bw) := s in
+  match o with
+  | MLock => if w then (s, MBlock) else ((true, true), MDone)
+  | MUnlock => if bw then (if w then ((false, false), MDone) else ((w, false), MFatal)) else (s, MNotLocked)
+  | MTryLock => if w then (s, MBool false) else ((true, true), MBool true)
+  | _ => (s, MDone)                                 (* no such method on sync.Mutex *)
+  end.
+Fixpoint mx_run (s : bool * bool) (ops : list mop) : list mout :=
+  match ops with
+  | [] => []
+  | o :: r => let '(s', out) := mx_step s o in
+              match out with MBlock | MFatal => [out] | _ => out :: mx_run s' r end
+  end.
